@@ -105,6 +105,37 @@ def replay_file(path):
     return 1 if failing else 0
 
 
+def contract_notes(reg, qualname):
+    """what the contract of a function assumes (harness preconditions / bounds, from the contract's own documentation) and which callees it
+    replaces by a contract -- and whether that callee contract is itself discharged on the callee's body in this repository"""
+    import sys as _sys
+    out = {}
+    cs = [c for c in reg if c.qualname == qualname]
+    if not cs:
+        return out
+    under = {c.qualname for c in reg}
+    docs, callees = [], {}
+    for c in cs:
+        d = (type(c).__doc__ or '') or (getattr(_sys.modules.get(type(c).__module__), '__doc__', '') or '')
+        d = ' '.join(d.split())
+        if d and d not in docs:
+            docs.append(d)
+        try:
+            case0 = c.cases()[0]
+            names = list(c.callees(case0, {}) or {})
+        except Exception:
+            names = []
+        for n in names:
+            base = n if (n in under or n + '.__init__' in under) else None
+            callees[n] = 'contract discharged on the callee itself (under contract in this repository)' if base else \
+                'assumed callee contract (stated in the contract file; the callee body is not verified against it here)'
+    if docs:
+        out['contract_and_assumptions'] = [d[:1500] for d in docs]
+    if callees:
+        out['callees'] = callees
+    return out
+
+
 def check_property(prop, tier, verbose=False):
     from pyvc import runner
     t0 = time.time()
@@ -256,7 +287,7 @@ def check_property(prop, tier, verbose=False):
             'pyvc (own VC generator, /verif/pyvc) sha256:' + tree_hash(os.path.join(ROOT, 'pyvc'))[:16],
             'z3 5.1.0 (z3-solver wheel), cvc5 1.0.3 CLI'],
         functions_under_contract={k: dict(cases=v['cases'], paths=v['paths'], seconds=round(v['seconds'], 1),
-                                          dropped=sorted(v['dropped'])) for k, v in functions.items()},
+                                          dropped=sorted(v['dropped']), **contract_notes(reg, k)) for k, v in functions.items()},
         per_obligation=[dict(obligation=k, verdict=v, paths=len(groups[k]), backend=groups[k][0].get('backend'),
                              seconds=round(sum(r.get('seconds', 0) for r in groups[k]), 3)) for k, v in sorted(summary.items())],
         not_decided=[dict(obligation=ident(r), reason=r.get('note')) for r in not_claimed],
